@@ -397,6 +397,9 @@ impl Prop for C18 {
       _ => panic!("unknown task {}", t),
     }
   }
+  fn cold_subs(&self) -> Vec<(&'static str, i64, i64, fn(i64) -> Vec<i64>)> {
+    vec![("object", 0, crate::model::NDAYS as i64 - 366, |x| vec![x, (x * 5).rem_euclid(24)])]
+  }
   fn eval(&self, env: &Env, out: &mut Out, sub: &str, case: &Case) {
     match sub {
       "day_cell" => self.eval_day_cell(env, out, case),
